@@ -205,6 +205,30 @@ pub fn run(tier: Tier) -> i32 {
                 }
             }
         }
+        // 2c. format-2 payloads whose second word begins with 1..5 zero bytes (six is the known finding of C12): the
+        //     words are still cut every 10 bytes, so offsets and quoted bytes of the messages must stay truthful
+        if !w.stave {
+            let (walked, _) = stream::walk(&base);
+            for k in 1..=5usize {
+                let mut g = base.clone();
+                let mut touched = false;
+                for wk in &walked {
+                    if wk.rdh.data_format == 2 && wk.payload.1 - wk.payload.0 >= 30 {
+                        for b in 0..6 {
+                            let i = wk.payload.0 + 10 + b;
+                            g[i] = if b < k { 0 } else if g[i] == 0 { 0x5A } else { g[i] };
+                        }
+                        touched = true;
+                    }
+                }
+                if touched {
+                    let bytes = Arc::new(g);
+                    for mode in [Mode::SanityIts, Mode::AllIts] {
+                        cases.push(Case { label: format!("{} second word of every payload starts with {k} zero bytes", w.name), bytes: bytes.clone(), mode, filter: None, pipe: false, cli: false });
+                    }
+                }
+            }
+        }
         // 3. truncation inside the last payload (E100 / E101 messages)
         for cutback in [1usize, 7, 20] {
             let t = Arc::new(base[..base.len() - cutback].to_vec());
@@ -239,7 +263,7 @@ pub fn run(tier: Tier) -> i32 {
     rep.cov("evaluations", json!(cases.len()));
     rep.cov("distinct_nontrivial", json!(with_msgs));
     rep.cov("exhaustive", json!(true));
-    rep.cov("rule", json!("every message of: the C02 fault x site menu (every 3rd site in quick, all in thorough) x modes; witness streams with all payload words / non-framing header bytes replaced by arbitrary bytes (6 / 24 salts) x modes x {no filter, each link, each FEE id, each layer-stave} x {file-like, pipe-like}; the same with empty-payload packets (foreign / same link) inserted at 3 position patterns; truncated tails; a CLI subset. non-trivial = the run produced at least one message to check"));
+    rep.cov("rule", json!("every message of: the C02 fault x site menu (every 3rd site in quick, all in thorough) x modes; witness streams with all payload words / non-framing header bytes replaced by arbitrary bytes (6 / 24 salts) x modes x {no filter, each link, each FEE id, each layer-stave} x {file-like, pipe-like}; the same with empty-payload packets (foreign / same link) inserted at 3 position patterns; format-2 payloads whose second word begins with 1..5 zero bytes; truncated tails; a CLI subset. non-trivial = the run produced at least one message to check"));
     rep.sample(json!({"check": "0x<offset> in input and at an RDH/word start; [b0..b9] == input[offset..offset+10]; `current :` row == decoded RDH at offset; `previous:` rows == the same link's two preceding RDHs"}));
     rep.assume("panics / crashes are not judged here (C04); the messages printed before are");
     rep.assume("payload layout agrees with the header's data format (the property's premise); words never end in 0xFF and the second word of a format-2 payload does not start with six zero bytes");
